@@ -34,11 +34,13 @@ def _strip_comments(src: str) -> str:
     return src
 
 
-def lean_build():
+def lean_build(targets=("SchedVerif",)):
+    """build the driver and the given library targets (a property's check only depends on its own
+    Props module: a broken proof elsewhere must not raise an alarm here)"""
     os.makedirs(os.path.join(VERIF, ".locks"), exist_ok=True)
     with open(os.path.join(VERIF, ".locks", "lake.lock"), "w") as lk:
         fcntl.flock(lk, fcntl.LOCK_EX)
-        p = subprocess.run(["lake", "build", "SchedVerif", "driver"], cwd=LEAN, capture_output=True, text=True)
+        p = subprocess.run(["lake", "build", "driver"] + list(targets), cwd=LEAN, capture_output=True, text=True)
         return p.returncode == 0, (p.stdout + p.stderr)[-4000:]
 
 
@@ -58,7 +60,7 @@ def lean_modules_of(prop_file):
 def lean_stage(pid, extra_props=(), tier="quick"):
     """returns dict(ok, obligations, discharged, theorems, problems, checker_cmd)"""
     res = {"ok": True, "obligations": 0, "discharged": 0, "theorems": [], "problems": [], "axioms": {}}
-    ok, log = lean_build()
+    ok, log = lean_build([f"SchedVerif.Props.{pid}"] + [f"SchedVerif.Props.{p}" for p in extra_props])
     if not ok:
         res["ok"] = False
         res["problems"].append({"kind": "build", "detail": log[-1500:]})
